@@ -1305,7 +1305,10 @@ func emitCase(r *hx.Run, sub uint64, ops []string, res *caseResult) {
 		}
 		if out.copyOK {
 			if f[0] == "copyb" {
-				switch n, size := atoi(f[5]), out.copySize; {
+				if atoi(f[5]) < 0 {
+					r.Count("copyb:batch-size:negative")
+				}
+				switch n, size := effBatch(f[5]), out.copySize; {
 				case n == 0:
 					r.Count("copyb:batch-size:none")
 				case n < size-1:
